@@ -50,7 +50,10 @@ CHECKS = {
     "C05": dict(
         cat="other", ref="§5 C05",
         text="Bounded solver verdict: the real widget row code, executed on a symbolic field, "
-             "equals the documented gate relations for ALL selector, challenge and wire values.",
+             "equals the documented gate relations for ALL selector, challenge and wire values; the real prover on a "
+             "small circuit with SYMBOLIC witness values returns a verifying proof for the satisfying family, "
+             "CircuitUnsatisfied for generic violations of one row / one copy constraint, and every panicking path "
+             "is infeasible (feasible ones are replayed).",
         note="z3 decides integer polynomial identities mod r; trusted: primality of r, the "
              "symbolic dispatch of the vendored dependency copy (validated differentially each run), specs in py/spec",
         tech="symbolic execution of the real Rust code on a term-recording field + SMT (z3, Int mod r)"),
